@@ -507,6 +507,7 @@ qlisttbl_data_t *qlisttbl_getmulti(qlisttbl_t *tbl, const char *name, bool newme
     qlisttbl_data_t *objs = NULL;  // objects container
     size_t allocobjs = 0;  // allocated number of objs
     size_t numfound = 0;  // number of keys found
+    bool nomem = false;  // memory allocation failure
 
     qlisttbl_obj_t obj;
     memset((void *)&obj, 0, sizeof(obj)); // must be cleared before call
@@ -518,12 +519,23 @@ qlisttbl_data_t *qlisttbl_getmulti(qlisttbl_t *tbl, const char *name, bool newme
         if (numfound >= allocobjs) {
             if (allocobjs == 0) allocobjs = 10;  // start from 10
             else allocobjs *= 2;  // double size
-            objs = (qlisttbl_data_t *)realloc(objs, sizeof(qlisttbl_data_t) * allocobjs);
-            if (objs == NULL) {
+            qlisttbl_data_t *newobjs = (qlisttbl_data_t *)realloc(objs, sizeof(qlisttbl_data_t) * allocobjs);
+            if (newobjs == NULL) {
                 DEBUG("qlisttbl->getmulti(): Memory reallocation failure.");
-                errno = ENOMEM;
+                // release the entry just fetched and everything collected so far
+                if (newmem == true) {
+                    free(obj.name);
+                    free(obj.data);
+                }
+                if (objs != NULL) {
+                    qlisttbl_freemulti(objs);
+                    objs = NULL;
+                }
+                numfound = 0;
+                nomem = true;
                 break;
             }
+            objs = newobjs;
         }
 
         // copy reference
@@ -549,7 +561,9 @@ qlisttbl_data_t *qlisttbl_getmulti(qlisttbl_t *tbl, const char *name, bool newme
         *numobjs = numfound;
     }
 
-    if (numfound == 0) {
+    if (nomem == true) {
+        errno = ENOMEM;
+    } else if (numfound == 0) {
         errno = ENOENT;
     }
 
